@@ -2,14 +2,12 @@
 import harness
 from facts import norm, call_name, short, subnodes, lit_value, field_reads
 from prov import Prov, has_field, has_call
-from emit import emission, guard_fields
+from emit import emission
+from templates import enclosing_contexts
 
 PR = "nitrogql_printer::"
 VIS = PR + "operation_base_printer::visitor::OperationPrinterVisitor"
 BASEOPT = PR + "operation_base_printer::options::OperationBasePrinterOptions"
-OPCTX = PR + "operation_base_printer::visitor::PrintOperationContext"
-FRCTX = PR + "operation_base_printer::visitor::PrintFragmentContext"
-NAMES = PR + "operation_base_printer::OperationNames"
 CFG = "nitrogql_config_file::config::"
 
 # option field -> config field it must be wired to (T10). `named_export_for_operation` is the negation of the same key.
@@ -25,9 +23,6 @@ BASE_WIRING = {
     "fragment_variable_suffix": ("GenerateNameConfig", "fragment_variable_suffix"),
 }
 
-NAME_ADTS = ("FragmentDefinition", "Ident", "OperationBasePrinterOptions", "OperationNames", "OperationDefinition")
-
-
 def visitors(P):
     impls = P.trait_impls(VIS)
     js = {f.name: f for f in impls if "operation_js_printer" in f.path}
@@ -37,30 +32,63 @@ def visitors(P):
 
 def wiring_of(P, fn, opt_adt):
     """{option field: set of (config adt, field)} from a from_config function: struct literal fields and
-    clone_into(&config.., &mut result.field) calls and assignments `result.f = ..`"""
+    clone_into(&config.., &mut result.field) calls and assignments `result.f = ..` — seen with same-crate helpers inlined and
+    with the return summaries of workspace callees (a positive "derives from" requirement), so that a helper that fetches a
+    sub-config or fills part of the options does not hide the dependency"""
+    from templates import inlined
+    _P[0] = P
+    fn = inlined(P, fn)
     pv = Prov(fn)
     out = {}
     for n in fn.walk():
         if n.get("k") == "Struct" and "rest" not in n and norm(n.get("adt")) == opt_adt:
             for f in n["fields"]:
-                out.setdefault(f["name"], set()).update(_cfg_fields(pv.atoms(f["e"])))
+                out.setdefault(f["name"], set()).update(_cfg_fields(pv.deep_atoms(f["e"])))
         elif n.get("k") == "Call" and (call_name(n) or "").endswith("clone_into") and len(n["args"]) == 2:
             dst = n["args"][1]
             while dst.get("k") in ("AddrOf", "Unary"):
                 dst = dst["e"]
             if dst.get("k") == "Field" and norm(dst.get("adt")) == opt_adt:
-                out.setdefault(dst["field"], set()).update(_cfg_fields(pv.atoms(n["args"][0])))
+                out.setdefault(dst["field"], set()).update(_cfg_fields(pv.deep_atoms(n["args"][0])))
         elif n.get("k") == "Assign" and n["l"].get("k") == "Field" and norm(n["l"].get("adt")) == opt_adt:
             # include the conditions guarding the assignment
-            out.setdefault(n["l"]["field"], set()).update(_cfg_fields(pv.atoms(n["r"])))
+            out.setdefault(n["l"]["field"], set()).update(_cfg_fields(pv.deep_atoms(n["r"])))
             out[n["l"]["field"]].add(("<assigned>", "<assigned>"))
         elif n.get("k") == "MethodCall" and n["recv"].get("k") == "Field" and norm(n["recv"].get("adt")) == opt_adt \
                 and n["method"] in ("extend", "insert", "push", "clone_from"):
-            out.setdefault(n["recv"]["field"], set()).update(_cfg_fields(pv.atoms(n["args"])))
+            out.setdefault(n["recv"]["field"], set()).update(_cfg_fields(pv.deep_atoms(n["args"])))
     return out
 
 
 _P = [None]
+_PREDS = []
+
+
+def sections(R, rule, *parts):
+    """run the independent parts of a rule; an anchor that cannot be resolved leaves only that part UNDECIDED"""
+    from facts import AnchorMissing
+    for name, fn in parts:
+        try:
+            fn()
+        except AnchorMissing as e:
+            R.undecided(rule, "anchor:" + name, "kind=anchor-missing: %s (this part of the rule cannot be evaluated on this shape of the code)" % e)
+
+
+def require_fields(P, *pairs):
+    """the (ADT, field) names a rule refers to are anchors: if one no longer exists (renamed field, restructured type) the rule
+    cannot be evaluated -> AnchorMissing (UNDECIDED), never a verdict about code that merely spells the field differently"""
+    from facts import AnchorMissing
+    for adt, field in pairs:
+        a = P.adt(adt)
+        names = set(a.fields()) if a.kind == "Struct" else {f["name"] for v in a.variants for f in v["fields"]}
+        if field not in names:
+            raise AnchorMissing("field `%s` of `%s` not found" % (field, adt))
+
+
+def stable_pred(fn):
+    """templates.inlined caches by id(pred): keep every predicate alive so that an id is never reused by another predicate"""
+    _PREDS.append(fn)
+    return fn
 
 
 def _cfg_fields(atoms):
@@ -77,60 +105,105 @@ def _cfg_fields(atoms):
 
 
 def r14a(P, R):
+    from templates import inlined
     _P[0] = P
-    ts_entry = P.fn(PR + "operation_type_printer::print_types_for_operation_document")
-    js_entry = P.fn(PR + "operation_js_printer::print_js_for_operation_document")
-    driver = P.fn(PR + "operation_base_printer::OperationPrinter::print_document")
-    for e in (ts_entry, js_entry):
-        R.check("R14-a", "driver:" + e.name, driver.path in P.callees_of(e)[0], "runs the shared OperationPrinter::print_document",
-                "%s does not run the shared traversal OperationPrinter::print_document" % e.path, loc=e.loc())
-    base_fc = P.fn(BASEOPT + "::from_config")
-    for name in ("operation_type_printer::visitor::OperationTypePrinterOptions::from_config",
-                 "operation_js_printer::options::OperationJSPrinterOptions::from_config"):
-        f = P.fn(PR + name)
-        pv = Prov(f)
-        lits = [n for n in f.walk() if n.get("k") == "Struct" and "rest" not in n]
-        ok = False
-        for l in lits:
-            for fld in l["fields"]:
-                if fld["name"] == "base_options" and has_call(pv.atoms(fld["e"]), "OperationBasePrinterOptions::from_config") \
-                        and ("param", "config") in pv.atoms(fld["e"]):
-                    ok = True
-        R.check("R14-a", "base-options:" + short(f.path), ok, "base options come from OperationBasePrinterOptions::from_config(config)",
-                "%s does not take its base options from OperationBasePrinterOptions::from_config(config)" % f.path, loc=f.loc())
+    JS_ENTRY = PR + "operation_js_printer::print_js_for_operation_document"
+
+    def shared_driver():
+        ts_entry = P.fn(PR + "operation_type_printer::print_types_for_operation_document")
+        js_entry = P.fn(JS_ENTRY)
+        driver = P.fn(PR + "operation_base_printer::OperationPrinter::print_document")
+        for e in (ts_entry, js_entry):
+            R.check("R14-a", "driver:" + e.name, driver.path in P.reachable([e]), "runs the shared OperationPrinter::print_document",
+                    "%s does not run the shared traversal OperationPrinter::print_document" % e.path, loc=e.loc())
+
+    def base_options():
+        base_fc = P.fn(BASEOPT + "::from_config")
+        for name in ("operation_type_printer::visitor::OperationTypePrinterOptions::from_config",
+                     "operation_js_printer::options::OperationJSPrinterOptions::from_config"):
+            f0 = P.fn(PR + name)
+            f = inlined(P, f0, pred=stable_pred(lambda g: g.path != base_fc.path))
+            pv = Prov(f)
+            lits = [n for n in f.walk() if n.get("k") == "Struct" and "rest" not in n and norm(n.get("adt")) == f0.self_adt]
+            ok = False
+            for l in lits:
+                for fld in l["fields"]:
+                    a = pv.deep_atoms(fld["e"])
+                    if _adt_of_type(P, P.adts[f0.self_adt].field_types().get(fld["name"])) == BASEOPT and has_call(a, "OperationBasePrinterOptions::from_config") \
+                            and ("param", "config") in a:
+                        ok = True
+            if not lits:
+                R.undecided("R14-a", "base-options:" + short(f0.path), "%s builds its result without a struct literal; where the base options come "
+                            "from is not decided on this shape" % f0.path, loc=f0.loc())
+            else:
+                R.check("R14-a", "base-options:" + short(f0.path), ok, "base options come from OperationBasePrinterOptions::from_config(config)",
+                        "%s does not take its base options from OperationBasePrinterOptions::from_config(config)" % f0.path, loc=f0.loc())
+
     # both front ends derive their options from the config they were given
-    lp = P.fn("graphql_loader::js_printer::print_js")
-    pv = Prov(lp)
-    calls = [c for c in lp.walk() if c.get("k") == "Call" and call_name(c) == js_entry.path]
-    ok = bool(calls) and has_call(pv.atoms(calls[0]["args"][0]), "OperationJSPrinterOptions::from_config") and ("param", "config") in pv.atoms(calls[0]["args"][0])
-    R.check("R14-a", "loader-options", ok, "the loader prints with OperationJSPrinterOptions::from_config(config)",
-            "graphql-loader does not derive its printer options from the config", loc=lp.loc())
-    go = P.fn("nitrogql_cli::generate::generate_operation_type_printer_options")
-    pv = Prov(go)
-    ok = any((call_name(c) or "").endswith("OperationTypePrinterOptions::from_config") and ("param", "config") in pv.atoms(c["args"][0])
-             for c in go.walk() if c.get("k") == "Call")
-    R.check("R14-a", "cli-options", ok, "the CLI prints with OperationTypePrinterOptions::from_config(config)",
-            "the CLI does not derive its operation printer options from the config", loc=go.loc())
+    def loader():
+        js_entry = P.fn(JS_ENTRY)
+        lp0 = P.fn("graphql_loader::js_printer::print_js")
+        lp = inlined(P, lp0)
+        pv = Prov(lp)
+        calls = [c for c in lp.walk() if c.get("k") == "Call" and call_name(c) == js_entry.path and c["args"]]
+        if not calls:
+            R.undecided("R14-a", "loader-options", "%s does not call %s directly or through a same-crate helper" % (lp0.path, js_entry.path), loc=lp0.loc())
+        else:
+            a = pv.deep_atoms(calls[0]["args"][0])
+            ok = has_call(a, "OperationJSPrinterOptions::from_config") and ("param", "config") in a
+            R.check("R14-a", "loader-options", ok, "the loader prints with OperationJSPrinterOptions::from_config(config)",
+                    "graphql-loader does not derive its printer options from the config", loc=lp0.loc())
+
+    def cli():
+        go0 = P.fn("nitrogql_cli::generate::generate_operation_type_printer_options")
+        go = inlined(P, go0)
+        pv = Prov(go)
+        fcs = [c for c in go.walk() if c.get("k") == "Call" and (call_name(c) or "").endswith("OperationTypePrinterOptions::from_config") and c["args"]]
+        if not fcs:
+            R.violated("R14-a", "cli-options", "%s never calls OperationTypePrinterOptions::from_config: the CLI does not derive its operation "
+                       "printer options from the config" % go0.path, loc=go0.loc())
+        else:
+            R.check("R14-a", "cli-options", any(("param", "config") in pv.deep_atoms(c["args"][0]) for c in fcs),
+                    "the CLI prints with OperationTypePrinterOptions::from_config(config)",
+                    "the CLI does not derive its operation printer options from the config it was given", loc=go0.loc())
+
     # T10 wiring of the shared options
-    w = wiring_of(P, base_fc, BASEOPT)
-    adt = P.adt(BASEOPT)
-    for fld in adt.fields():
-        exp = BASE_WIRING.get(fld)
-        if exp is None:
-            R.undecided("R14-a", "wiring:" + fld, "new option field `%s` has no entry in the wiring table" % fld, loc=base_fc.loc())
-            continue
-        got = w.get(fld, set())
-        R.check("R14-a", "wiring:" + fld, exp in got and len({g for g in got if g[0] != "<assigned>"}) == 1,
-                "`%s` <- config.%s.%s" % (fld, exp[0], exp[1]),
-                "option `%s` is wired to %s, expected config %s.%s: the declaration printer and the loader would still agree with each "
-                "other but not with the configured naming/export option" % (fld, sorted(got), exp[0], exp[1]), loc=base_fc.loc())
-    # named export is the negation of default export
-    negs = [n for n in base_fc.walk() if n.get("k") == "Unary" and n.get("op") == "Not"]
-    R.check("R14-a", "wiring:named-is-negation", len(negs) == 1, "named export = !default export", "negation count %d" % len(negs), loc=base_fc.loc())
+    def wiring():
+        base_fc = P.fn(BASEOPT + "::from_config")
+        w = wiring_of(P, base_fc, BASEOPT)
+        adt = P.adt(BASEOPT)
+        for fld in adt.fields():
+            exp = BASE_WIRING.get(fld)
+            if exp is None:
+                R.undecided("R14-a", "wiring:" + fld, "new option field `%s` has no entry in the wiring table" % fld, loc=base_fc.loc())
+                continue
+            require_fields(P, (CFG + exp[0], exp[1]))
+            got = w.get(fld, set())
+            R.check("R14-a", "wiring:" + fld, exp in got and len({g for g in got if g[0] != "<assigned>"}) == 1,
+                    "`%s` <- config.%s.%s" % (fld, exp[0], exp[1]),
+                    "option `%s` is wired to %s, expected config %s.%s: the declaration printer and the loader would still agree with each "
+                    "other but not with the configured naming/export option" % (fld, sorted(got), exp[0], exp[1]), loc=base_fc.loc())
+        # named export is the negation of default export
+        fci = inlined(P, base_fc)
+        negs = [n for n in fci.walk() if n.get("k") == "Unary" and n.get("op") == "Not"]
+        other = [n for n in fci.walk() if (n.get("k") == "Binary" and n.get("op") in ("==", "!=", "^")) or n.get("k") == "If"
+                 or (n.get("k") == "Match" and n.get("src") == "Normal")]
+        if len(negs) == 1:
+            R.holds("R14-a", "wiring:named-is-negation", "named export = !default export", loc=base_fc.loc())
+        elif not negs and not other:
+            R.violated("R14-a", "wiring:named-is-negation", "%s contains no negation, comparison or branch: `named_export_for_operation` and "
+                       "`default_export_for_operation` are wired to the same config key with the same polarity, so both or neither export is "
+                       "emitted" % base_fc.path, loc=base_fc.loc())
+        else:
+            R.undecided("R14-a", "wiring:named-is-negation", "how %s derives the polarity of named vs default export is not a single `!` "
+                        "(%d negations, %d comparisons/branches); not decided on this shape" % (base_fc.path, len(negs), len(other)), loc=base_fc.loc())
+
+    sections(R, "R14-a", ("shared-driver", shared_driver), ("base-options", base_options), ("loader", loader), ("cli", cli), ("wiring", wiring))
 
 
-def const_site(fn, pv, em):
-    """the identifier written right after the literal `const ` -> (index, node) and the `export ` write preceding it"""
+def const_site(em):
+    """the identifier written right after the literal `const ` -> (entry of the identifier write, entry of the `export ` write
+    preceding it)"""
     for pos, (i, kind, lit, n) in enumerate(em):
         if kind == "write" and lit == "const ":
             ident = em[pos + 1] if pos + 1 < len(em) else None
@@ -145,174 +218,347 @@ def const_site(fn, pv, em):
     return None, None
 
 
-def name_sig(P, atoms, expand=True):
-    """semantic signature of a printed identifier: (ADT, field) atoms on naming ADTs + workspace callees"""
-    sig = set()
-    for a in atoms:
-        if a[0] == "field":
-            last = a[1].split("::")[-1]
-            if last in NAME_ADTS:
-                sig.add((last, a[2]))
-        elif a[0] in ("call", "def") and a[1] in P.fns and not a[1].endswith("::name_pos"):
-            sig.add(("call", short(a[1])))
-    return sig
+def _adt_of_type(P, t):
+    """workspace ADT named by a type string (references, lifetimes and generic arguments peeled), or None"""
+    t = norm(t or "").strip()
+    while t.startswith("&"):
+        t = t[1:].strip()
+        if t.startswith("mut "):
+            t = t[4:].strip()
+    t = t.split("<")[0].strip()
+    return t if t in P.adts else None
 
 
-def ctx_field_sig(P, ctx_adt, field):
-    """signature of a context struct field, through its constructor in the shared driver"""
-    driver = P.fn(PR + "operation_base_printer::OperationPrinter::print_document")
-    pv = Prov(driver)
-    sig = set()
-    for n in driver.walk():
-        if n.get("k") == "Struct" and "rest" not in n and norm(n.get("adt")) == ctx_adt:
-            for f in n["fields"]:
-                if f["name"] == field:
-                    sig |= name_sig(P, pv.atoms(f["e"]))
-    return sig
+def _usable(f):
+    return not f.derived and "::tests" not in f.path and f.kind in ("Fn", "AssocFn")
 
 
-def expand(P, sig):
-    """replace context-struct indirections by what the driver put there"""
-    out = set()
-    for s in sig:
-        out.add(s)
-    return out
+class Carriers:
+    """The structs through which the shared driver hands values to the visitors (the context parameter types of the visitor
+    methods and, transitively, the same-crate structs their fields refer to), with the *expansion* of a carrier field: what every
+    constructor site of the struct (in the constructing function and, with same-crate helpers inlined, in the shared driver) puts
+    there.  Names of the carrier structs, of their fields and of the functions that fill them play no role."""
+
+    def __init__(self, P, roots, drivers=()):
+        from templates import inlined
+        self.P = P
+        self.crate = PR.rstrip(":")
+        self.adts = set()
+        todo = [a for a in roots if a]
+        while todo:
+            a = todo.pop()
+            if a in self.adts or a not in P.adts or P.adts[a].kind != "Struct":
+                continue
+            self.adts.add(a)
+            for ty in P.adts[a].field_types().values():
+                b = _adt_of_type(P, ty)
+                if b and b.startswith(PR):
+                    todo.append(b)
+        # constructor sites
+        direct = [f for f in P.fns.values() if f.path.startswith((PR, "<" + PR)) and _usable(f)
+                  and any(n.get("k") == "Struct" and "rest" not in n and norm(n.get("adt")) in self.adts for n in f.walk())]
+        roots_fn = {f.path: f for f in direct}
+        for d in drivers:
+            # a constructor inside a helper of the shared driver sees its parameters through the driver (virtual inlining)
+            roots_fn.setdefault(d.path, d)
+        self.sites = {}   # (adt, field) -> set of atoms
+        for f in roots_fn.values():
+            fi = inlined(P, f)
+            pv = None
+            for n in fi.walk():
+                if n.get("k") == "Struct" and "rest" not in n and norm(n.get("adt")) in self.adts:
+                    pv = pv or Prov(fi)
+                    for fld in n["fields"]:
+                        self.sites.setdefault((norm(n["adt"]), fld["name"]), set()).update(pv.deep_atoms(fld["e"]))
+        self.unresolved = set()
+
+    def field_adt(self, adt, field):
+        a = self.P.adts.get(adt)
+        if a is None or a.kind != "Struct":
+            return None
+        return _adt_of_type(self.P, a.field_types().get(field))
+
+    def expand(self, atoms, _seen=frozenset()):
+        """leaf signature of a set of atoms: carrier fields replaced by what their constructors put there; fields that only step
+        into another struct of the printer crate (`self.options`, `options.base_options`, `context.names`) dropped; calls of printer
+        functions dropped (their return summary is part of the deep atoms) -> {(adt, field)} | {("call", fn)}"""
+        sig = set()
+        for a in atoms:
+            if a[0] == "field" and a[1]:
+                adt, fld = a[1], a[2]
+                inner = self.field_adt(adt, fld)
+                if adt in self.adts:
+                    if inner in self.adts or (adt, fld) in _seen:
+                        continue
+                    src = self.sites.get((adt, fld))
+                    if src is None:
+                        self.unresolved.add((adt, fld))
+                        continue
+                    sig |= self.expand(src, _seen | {(adt, fld)})
+                elif adt.startswith(PR) and inner and inner.startswith(PR):
+                    continue
+                else:
+                    sig.add((adt, fld))
+            elif a[0] in ("call", "def") and a[1] in self.P.fns:
+                if a[1].startswith((PR, "<")) or a[1].endswith("::name_pos"):
+                    continue   # printer helpers: their return summary is already among the deep atoms; trait impls (Display..)
+                sig.add(("call", a[1]))
+        return sig
+
+    def raw_fields(self, atoms):
+        """carrier fields (not mere path steps) among atoms"""
+        return {(a[1], a[2]) for a in atoms if a[0] == "field" and a[1] in self.adts and self.field_adt(a[1], a[2]) not in self.adts}
+
+
+AST_NAME_ADTS = ("nitrogql_ast::operation::FragmentDefinition", "nitrogql_ast::operation::OperationDefinition", "nitrogql_ast::base::Ident")
+
+
+def naming(sig):
+    """the part of a signature that decides a *name*: option fields (any struct of the printer crate), the definition's own
+    fields, and functions applied; fields that merely locate the definition in the document are left out"""
+    return {s for s in sig if s[0] == "call" or s[0].startswith(PR) or s[0] in AST_NAME_ADTS}
+
+
+def _show(sig):
+    return sorted("%s()" % short(s[1]) if s[0] == "call" else "%s.%s" % (s[0].split("::")[-1], s[1]) for s in sig)
+
+
+def guard_atoms(fn, idx, pv):
+    """atoms of the conditions under which nodes()[idx] runs (then-branches and else-branches alike; an else-branch is
+    conditional on the same expression) + whether any enclosing condition exists"""
+    out, n = set(), 0
+    for c in enclosing_contexts(fn, idx):
+        if c[0] in ("if-then", "if-else"):
+            n += 1
+            out |= set(pv.deep_atoms(c[1]["cond"]))
+        elif c[0] == "arm" and c[1] is not None and c[1].get("src") == "Normal":
+            n += 1
+            out |= set(pv.deep_atoms(c[1]["scrut"]))
+    return out, n
+
+
+SUFFIXES = ("query_variable_suffix", "mutation_variable_suffix", "subscription_variable_suffix")
 
 
 def r14b(P, R):
+    from templates import inlined
+    require_fields(P, *[(BASEOPT, f) for f in SUFFIXES + ("fragment_variable_suffix", "capitalize_operation_names", "named_export_for_operation",
+                                                              "default_export_for_operation")])
+    require_fields(P, ("nitrogql_ast::operation::OperationDefinition", "name"), ("nitrogql_ast::operation::FragmentDefinition", "name"))
     js, ts = visitors(P)
     R.floor("R14-b", "visitor methods (js)", len(js), 5)
     R.floor("R14-b", "visitor methods (ts)", len(ts), 5)
-    # ---- operation constant
-    sigs = {}
-    for side, vis in (("js", js), ("ts", ts)):
-        f = vis["print_operation_definition"]
-        pv = Prov(f)
-        em = emission(f)
-        ident, exp = const_site(f, pv, em)
-        if ident is None:
-            R.violated("R14-b", "op-const:" + side, "%s writes no `const <name>`" % f.path, loc=f.loc())
-            continue
-        a = pv.atoms(ident[3]["args"][0])
-        sig = {(x[1].split("::")[-1], x[2]) for x in a if x[0] == "field" and x[1] in (NAMES, OPCTX)}
-        sigs[side] = sig
-        R.check("R14-b", "op-const-name:" + side, ("OperationNames", "operation_variable_name") in sig and ("OperationNames", "operation_name") not in sig,
-                "operation constant is named by operation_names.operation_variable_name",
-                "%s names the operation constant from %s, not from operation_names.operation_variable_name" % (f.path, sorted(sig)), loc=f.loc())
+    methods = ("print_operation_definition", "print_fragment_definition", "print_default_exported_operation_definition")
+    if any(m not in v for v in (js, ts) for m in methods):
+        R.undecided("R14-b", "visitors", "the two implementors of OperationPrinterVisitor (declaration printer / JS printer) with the three "
+                    "export-emitting methods were not located")
+        return
+    ctx = {m: _adt_of_type(P, js[m].sig_inputs[1]) if len(js[m].sig_inputs) >= 2 else None for m in methods}
+    for m in methods:
+        tsctx = _adt_of_type(P, ts[m].sig_inputs[1]) if len(ts[m].sig_inputs) >= 2 else None
+        if ctx[m] is None or tsctx != ctx[m]:
+            R.undecided("R14-b", "visitors", "the context parameter of OperationPrinterVisitor::%s is not a struct of the workspace" % m)
+            return
+    driver0 = P.fn(PR + "operation_base_printer::OperationPrinter::print_document", required=False)
+    C = Carriers(P, set(ctx.values()), [driver0] if driver0 else [])
+    opt = lambda f: (BASEOPT, f)
+
+    def site(side, m):
+        """(inlined fn, Prov, emission) of one visitor method"""
+        f = inlined(P, (js if side == "js" else ts)[m])
+        return f, Prov(f), emission(f)
+
+    def export_guard(side, what, f, pv, exp, want_opts, ctx_adt):
+        """`export ` is written under a flag of the context whose value the shared driver decides from exactly `want_opts`"""
+        key = "%s-export:%s" % (what, side)
         if exp is None:
-            R.violated("R14-b", "op-export:" + side, "%s never writes `export ` before the operation constant" % f.path, loc=f.loc())
+            R.undecided("R14-b", key, "%s: no separate `export ` write precedes the %s constant; the export condition is not decided on "
+                        "this shape" % (f.path, what), loc=f.loc())
+            return None
+        ga, n = guard_atoms(f, exp[0], pv)
+        raw = C.raw_fields(ga)
+        sig = naming(C.expand(ga))
+        opts = {s for s in sig if s[0] != "call" and s[0].startswith(PR)}
+        if n == 0:
+            R.violated("R14-b", key, "%s writes `export ` before the %s constant unconditionally; the shared driver's export decision "
+                       "(context flag) is ignored" % (f.path, what), loc=f.loc())
+        elif not raw and not opts:
+            R.undecided("R14-b", key, "%s: the condition of the `export ` write was not traced to a context field" % f.path, loc=f.loc())
         else:
-            g = {(x[1].split("::")[-1], x[2]) for x in guard_fields(f, exp[0], pv)}
-            R.check("R14-b", "op-export:" + side, g == {("PrintOperationContext", "exported")},
-                    "`export` of the operation constant is conditional on context.exported only",
-                    "%s exports the operation constant under %s; the other side uses context.exported" % (f.path, sorted(g)), loc=f.loc())
+            R.check("R14-b", key, bool(raw) and opts == want_opts,
+                    "`export` of the %s constant is conditional on the context flag decided by the shared driver only" % what,
+                    "%s exports the %s constant under a condition that depends on %s; the shared driver decides it from %s and the other "
+                    "side follows the context flag" % (f.path, what, _show(sig) or "no context flag", _show(want_opts) or "the document only"), loc=f.loc())
+        return raw, sig
+
+    # ---- operation constant
+    sigs, gsigs, flags = {}, {}, set()
+    need_op = {opt(s) for s in SUFFIXES} | {("nitrogql_ast::operation::OperationDefinition", "name")}
+    allowed_op = need_op | {opt("capitalize_operation_names")}
+    for side in ("js", "ts"):
+        f, pv, em = site(side, methods[0])
+        ident, exp = const_site(em)
+        if ident is None or not ident[3]["args"]:
+            R.undecided("R14-b", "op-const:" + side, "%s: no `const ` write followed by an identifier write was found; the name of the "
+                        "operation constant is not decided on this shape" % f.path, loc=f.loc())
+            continue
+        sig = naming(C.expand(pv.deep_atoms(ident[3]["args"][0])))
+        sigs[side] = sig
+        foreign = {s for s in sig if s[0] != "call" and s[0].startswith(PR) and s not in allowed_op}
+        R.check("R14-b", "op-const-name:" + side, need_op <= sig and not foreign,
+                "operation constant = (capitalised) operation name + per-kind variable suffix",
+                "%s names the operation constant from %s: %s — the constant the other side declares/exports is named by operation name + "
+                "query/mutation/subscription variable suffix" % (f.path, _show(sig), ("it lacks %s" % _show(need_op - sig)) if need_op - sig
+                                                                  else ("it also depends on %s" % _show(foreign))), loc=f.loc())
+        g = export_guard(side, "op", f, pv, exp, {opt("named_export_for_operation")}, ctx[methods[0]])
+        if g:
+            flags |= g[0]
+            gsigs[side] = g[1]
     if len(sigs) == 2:
         R.check("R14-b", "op-const-agree", sigs["js"] == sigs["ts"], "both sides name the operation constant identically",
-                "operation constant naming differs: js=%s ts=%s" % (sorted(sigs["js"]), sorted(sigs["ts"])))
+                "operation constant naming differs: js=%s ts=%s" % (_show(sigs["js"]), _show(sigs["ts"])))
     # ---- fragment constant
-    fsigs = {}
-    var_name_sig = ctx_field_sig(P, FRCTX, "var_name")
-    for side, vis in (("js", js), ("ts", ts)):
-        f = vis["print_fragment_definition"]
-        pv = Prov(f)
-        em = emission(f)
-        ident, exp = const_site(f, pv, em)
-        if ident is None:
-            R.violated("R14-b", "frag-const:" + side, "%s writes no `const <name>`" % f.path, loc=f.loc())
+    fsigs, fg = {}, {}
+    need_fr = {opt("fragment_variable_suffix"), ("nitrogql_ast::operation::FragmentDefinition", "name")}
+    for side in ("js", "ts"):
+        f, pv, em = site(side, methods[1])
+        ident, exp = const_site(em)
+        if ident is None or not ident[3]["args"]:
+            R.undecided("R14-b", "frag-const:" + side, "%s: no `const ` write followed by an identifier write was found; the name of the "
+                        "fragment constant is not decided on this shape" % f.path, loc=f.loc())
             continue
-        a = pv.atoms(ident[3]["args"][0])
-        sig = name_sig(P, a)
-        if any(x[0] == "field" and x[1] == FRCTX and x[2] == "var_name" for x in a):
-            sig |= var_name_sig
-        # drop the path through the options struct (`self.options.base_options`) – same option value on both sides
-        sig = {s for s in sig if s != ("OperationTypePrinterOptions", "base_options")}
+        sig = naming(C.expand(pv.deep_atoms(ident[3]["args"][0])))
         fsigs[side] = sig
-        if exp is None:
-            R.violated("R14-b", "frag-export:" + side, "%s never writes `export ` before the fragment constant" % f.path, loc=f.loc())
-        else:
-            g = {(x[1].split("::")[-1], x[2]) for x in guard_fields(f, exp[0], pv)}
-            R.check("R14-b", "frag-export:" + side, g == {("PrintFragmentContext", "exported")},
-                    "`export` of the fragment constant is conditional on context.exported only",
-                    "%s exports the fragment constant under %s" % (f.path, sorted(g)), loc=f.loc())
-    want = {("FragmentDefinition", "name"), ("Ident", "name"), ("OperationBasePrinterOptions", "fragment_variable_suffix")}
-    for side, sig in fsigs.items():
-        R.check("R14-b", "frag-const-name:" + side, sig == want, "fragment constant = fragment name + fragment_variable_suffix",
-                "%s side names the fragment constant from %s (expected name + fragment_variable_suffix, no other transformation)" % (side, sorted(sig)))
+        extra = {s for s in sig if s not in need_fr and s != ("nitrogql_ast::base::Ident", "name")}
+        R.check("R14-b", "frag-const-name:" + side, need_fr <= sig and not extra, "fragment constant = fragment name + fragment_variable_suffix",
+                "%s side names the fragment constant from %s (expected fragment name + fragment_variable_suffix, no other transformation): %s"
+                % (side, _show(sig), ("it lacks %s" % _show(need_fr - sig)) if need_fr - sig else ("it also depends on %s" % _show(extra))), loc=f.loc())
+        g = export_guard(side, "frag", f, pv, exp, set(), ctx[methods[1]])
+        if g:
+            fg[side] = g[1]
     if len(fsigs) == 2:
         R.check("R14-b", "frag-const-agree", fsigs["js"] == fsigs["ts"], "both sides name the fragment constant identically",
-                "fragment constant naming differs: js=%s ts=%s" % (sorted(fsigs["js"]), sorted(fsigs["ts"])))
+                "fragment constant naming differs: js=%s ts=%s" % (_show(fsigs["js"]), _show(fsigs["ts"])))
+    if len(fg) == 2:
+        R.check("R14-b", "frag-export-agree", fg["js"] == fg["ts"], "both sides export the fragment constant under the same condition",
+                "fragment export condition differs: js=%s ts=%s" % (_show(fg["js"]), _show(fg["ts"])))
     # ---- default export
-    dsig = {}
-    for side, vis in (("js", js), ("ts", ts)):
-        f = vis["print_default_exported_operation_definition"]
-        pv = Prov(f)
-        em = emission(f)
+    for side in ("js", "ts"):
+        f, pv, em = site(side, methods[2])
         lits = [e[2] for e in em if e[2] is not None]
-        names = [e for e in em if e[2] is None]
+        names = [e for e in em if e[2] is None and e[3]["args"]]
         ok_shape = lits[:1] == ["export { "] and any(l.startswith(" as default") for l in lits) and len(names) == 1
-        R.check("R14-b", "default-shape:" + side, ok_shape, "`export { <name> as default }`",
-                "%s does not emit `export { <name> as default }` (%s)" % (f.path, lits), loc=f.loc())
-        if names:
-            a = pv.atoms(names[0][3]["args"][0])
-            sig = {(x[1].split("::")[-1], x[2]) for x in a if x[0] == "field" and x[1] in (NAMES, OPCTX)}
-            dsig[side] = sig
-            R.check("R14-b", "default-name:" + side, ("OperationNames", "operation_variable_name") in sig and ("OperationNames", "operation_name") not in sig,
-                    "default export re-exports the operation constant", "%s default-exports %s" % (f.path, sorted(sig)), loc=f.loc())
-        g = [c for c in f.walk() if c.get("k") == "If"]
-        R.check("R14-b", "default-unconditional:" + side, not g, "the visitor emits the default export whenever the shared driver asks for it",
+        if ok_shape:
+            R.holds("R14-b", "default-shape:" + side, "`export { <name> as default }`", loc=f.loc())
+        elif not em:
+            R.violated("R14-b", "default-shape:" + side, "%s emits nothing: the default export the shared driver asks for is missing on "
+                       "this side" % f.path, loc=f.loc())
+        else:
+            R.undecided("R14-b", "default-shape:" + side, "%s: the emission %s is not the recognised `export { <name> as default }` sequence"
+                        % (f.path, lits), loc=f.loc())
+            continue
+        sig = naming(C.expand(pv.deep_atoms(names[0][3]["args"][0])))
+        same = side not in sigs or sig == sigs[side]
+        R.check("R14-b", "default-name:" + side, need_op <= sig and same, "default export re-exports the operation constant",
+                "%s default-exports a name computed from %s; the operation constant of the same file is named from %s%s"
+                % (f.path, _show(sig), _show(sigs.get(side, need_op)), (" (lacks %s)" % _show(need_op - sig)) if need_op - sig else ""), loc=f.loc())
+        cond = [c for e in em for c in enclosing_contexts(f, e[0]) if c[0] in ("if-then", "if-else")]
+        R.check("R14-b", "default-unconditional:" + side, not cond, "the visitor emits the default export whenever the shared driver asks for it",
                 "%s emits the default export conditionally; the shared driver already decides eligibility" % f.path, loc=f.loc())
     # ---- the shared driver decides: default export iff option && exactly one operation; exported iff named_export option
-    driver = P.fn(PR + "operation_base_printer::OperationPrinter::print_document")
-    pv = Prov(driver)
-    calls = [(i, c) for i, (c, _) in enumerate(driver.nodes()) if c.get("k") == "MethodCall" and c["method"] == "print_default_exported_operation_definition"]
-    R.floor("R14-b", "default export decision sites", len(calls), 1)
-    for i, c in calls:
-        g = {(x[1].split("::")[-1], x[2]) for x in guard_fields(driver, i, pv)}
-        R.check("R14-b", "default-eligibility", ("OperationBasePrinterOptions", "default_export_for_operation") in g,
-                "default export only with the option on (and a single operation)", "default export eligibility depends on %s" % sorted(g), loc=driver.loc())
-    for n in driver.walk():
-        if n.get("k") == "Struct" and "rest" not in n and norm(n.get("adt")) == OPCTX:
-            for f in n["fields"]:
-                if f["name"] == "exported":
-                    g = {(x[1].split("::")[-1], x[2]) for x in pv.atoms(f["e"]) if x[0] == "field"}
-                    R.check("R14-b", "op-exported-source", ("OperationBasePrinterOptions", "named_export_for_operation") in g,
-                            "context.exported <- options.named_export_for_operation", "context.exported derives from %s" % sorted(g), loc=driver.loc())
+    # (the driver is whoever calls the visitor's default-export method: the anchored print_document, else any printer function)
+    drivers = [driver0] if driver0 else [f for f in P.fns.values() if f.path.startswith(PR) and _usable(f)
+                                         and any(c.get("k") == "MethodCall" and c["method"] == methods[2] for c in f.walk())]
+    sites = 0
+    for d in drivers:
+        driver = inlined(P, d)
+        pv = Prov(driver)
+        for i, (c, _) in enumerate(driver.nodes()):
+            if c.get("k") == "MethodCall" and c["method"] == methods[2]:
+                sites += 1
+                ga, n = guard_atoms(driver, i, pv)
+                g = C.expand(ga)
+                R.check("R14-b", "default-eligibility", opt("default_export_for_operation") in g,
+                        "default export only with the option on (and a single operation)", "default export eligibility depends on %s" % _show(naming(g)), loc=driver.loc())
+    R.floor("R14-b", "default export decision sites", sites, 1)
+    if not flags:
+        R.undecided("R14-b", "op-exported-source", "no context flag guarding the export of the operation constant was identified")
+    for (adt, fld) in sorted(flags):
+        g = C.expand({("field", adt, fld)})
+        R.check("R14-b", "op-exported-source", opt("named_export_for_operation") in g,
+                "the context's export flag <- options.named_export_for_operation", "the context's export flag `%s` derives from %s" % (fld, _show(naming(g))))
+    for (adt, fld) in sorted(C.unresolved):
+        R.undecided("R14-b", "carrier:%s.%s" % (adt.split("::")[-1], fld), "no constructor site of `%s` was found in the printer crate; what the "
+                    "visitors read from `%s` is not decided" % (adt, fld))
 
 
 def r14c(P, R):
     """name ownership: capitalisation and the variable-suffix options are applied in the shared base printer only"""
+    from templates import inlined, scope_fns
+    from facts import matches_on, arm_variants
+    js, ts = visitors(P)
+    driver = P.fn(PR + "operation_base_printer::OperationPrinter::print_document", required=False)
+    vis_paths = {f.path for f in list(js.values()) + list(ts.values())}
+    shared = P.reachable([driver], stop=vis_paths) if driver else set()
+    reach = {"js": P.reachable(list(js.values())), "ts": P.reachable(list(ts.values()))}
+
+    def owner(path):
+        """'shared' | 'js' | 'ts' (reachable from that visitor only) | 'both' | None (on neither printer's path)"""
+        home = path[1:path.index(" as ")] if path.startswith("<") and " as " in path else path   # an impl lives with its self type
+        if path in shared or "operation_base_printer" in home:
+            return "shared"
+        sides = [s for s in ("js", "ts") if path in reach[s]]
+        return "both" if len(sides) == 2 else (sides[0] if sides else None)
+
     cap_callers = [c for c in P.callers_of("nitrogql_utils::capitalize::capitalize") if "::tests" not in c]
-    R.check("R14-c", "capitalize-owner", all("operation_base_printer" in c for c in cap_callers) and cap_callers,
-            "capitalize is applied only in operation_base_printer", "capitalize is also called from %s" % cap_callers)
+    one_sided = [c for c in cap_callers if owner(c) in ("js", "ts")]
+    if one_sided:
+        R.violated("R14-c", "capitalize-owner", "capitalize is also called from %s, which only one of the two printers runs: that side can "
+                   "capitalise a name the other does not" % one_sided)
+    elif not any(owner(c) == "shared" for c in cap_callers):
+        R.undecided("R14-c", "capitalize-owner", "no caller of capitalize on the shared path of the two printers (callers: %s)" % cap_callers)
+    else:
+        R.holds("R14-c", "capitalize-owner", "capitalize is applied only on the shared path (%s)" % [short(c) for c in cap_callers if owner(c) == "shared"])
     suffix_fields = ["query_variable_suffix", "mutation_variable_suffix", "subscription_variable_suffix", "fragment_variable_suffix", "capitalize_operation_names"]
-    allowed_extra = {
-        # the TS visitor recomputes the fragment constant name from the same option (compared in R14-b)
-        ("fragment_variable_suffix", "OperationTypePrinterVisitor::print_fragment_definition"),
-    }
+    require_fields(P, *[(BASEOPT, f) for f in suffix_fields])
+    # the visitors may recompute the fragment constant name from the same option (compared in R14-b)
+    frag_scope = {g.path for v in (js, ts) if "print_fragment_definition" in v for g in scope_fns(P, v["print_fragment_definition"])}
     n = 0
+    namers = []
     for f in P.fns.values():
         if f.derived or "::tests" in f.path or not f.path.startswith((PR, "<" + PR, "graphql_loader", "nitrogql_cli")) and PR not in f.path:
             continue
-        for (adt, fld) in field_reads(f):
-            if adt == BASEOPT and fld in suffix_fields:
-                n += 1
-                ok = "operation_base_printer" in f.path or (fld, short(f.path)) in allowed_extra
-                R.check("R14-c", "owner:%s@%s" % (fld, short(f.path)), ok, "read in the shared base printer",
-                        "%s reads naming option `%s` outside the shared base printer: one side can name exports differently" % (f.path, fld), loc=f.loc())
+        reads = {fld for (adt, fld) in field_reads(f) if adt == BASEOPT and fld in suffix_fields}
+        if set(SUFFIXES) <= reads:
+            namers.append(f)
+        for fld in sorted(reads):
+            n += 1
+            o = owner(f.path)
+            key = "owner:%s@%s" % (fld, short(f.path))
+            if o == "shared" or o is None:
+                R.holds("R14-c", key, "read in the shared base printer" if o else "read outside both printers", loc=f.loc())
+            elif fld == "fragment_variable_suffix" and f.path in frag_scope:
+                R.holds("R14-c", key, "recomputes the fragment constant name (compared with the other side in R14-b)", loc=f.loc())
+            elif o == "both":
+                R.undecided("R14-c", key, "%s reads naming option `%s`; it is run by both printers but not from the shared driver" % (f.path, fld), loc=f.loc())
+            else:
+                R.violated("R14-c", key, "%s reads naming option `%s` and only the %s printer runs it: one side can name exports differently"
+                           % (f.path, fld, "JS" if o == "js" else "declaration"), loc=f.loc())
     R.floor("R14-c", "reads of naming options", n, 6)
-    # suffix table of operation_variable_name
-    ovn = P.fn(PR + "operation_base_printer::operation_variable_name")
-    from facts import matches_on, arm_variants
-    ms = matches_on(ovn, "OperationType")
-    R.floor("R14-c", "operation-type suffix match", len(ms), 1)
+    # suffix table of the function that computes the operation's variable name (the one reading all three per-kind suffixes)
     exp = {"Query": "query_variable_suffix", "Mutation": "mutation_variable_suffix", "Subscription": "subscription_variable_suffix"}
-    pv = Prov(ovn)
-    for m in ms:
-        for arm in m["arms"]:
-            v, _ = arm_variants({"arms": [arm]})
-            for vv in v:
-                got = {x[2] for x in pv.atoms(arm["body"]) if x[0] == "field" and x[1] == BASEOPT}
-                R.check("R14-c", "suffix:" + vv, got == {exp.get(vv)}, "%s -> %s" % (vv, exp.get(vv)), "%s operations get suffix %s" % (vv, sorted(got)), loc=ovn.loc())
+    found = 0
+    for ovn in namers:
+        fi = inlined(P, ovn)
+        pv = Prov(fi)
+        for m in matches_on(fi, "OperationType"):
+            found += 1
+            for arm in m["arms"]:
+                v, _ = arm_variants({"arms": [arm]})
+                for vv in v:
+                    got = {x[2] for x in pv.atoms(arm["body"]) if x[0] == "field" and x[1] == BASEOPT}
+                    R.check("R14-c", "suffix:" + vv, got == {exp.get(vv)}, "%s -> %s" % (vv, exp.get(vv)), "%s operations get suffix %s" % (vv, sorted(got)), loc=ovn.loc())
+    R.floor("R14-c", "operation-type suffix match", found, 1)
 
 
 def r14d(P, R):
